@@ -350,7 +350,7 @@ template< typename T, typename F>
 {
    if (mpObject != nullptr)
    {
-      if (mIndex > 0)
+      if ((mIndex != EndValue) && (mIndex > 0))
          --mIndex;
       else
          mIndex = EndValue;
